@@ -586,3 +586,395 @@ sparse = _mod("jax.experimental.sparse", BCOO=_BCOO)
 experimental.sparse = sparse
 
 # random is not used by the modelled code paths
+
+
+# ----------------------------------------------------------------------------------------------
+# taint mode (property C19): SUMMER2_VERIF_TAINT=1
+# ----------------------------------------------------------------------------------------------
+# Emulates what JAX tracing does to Python code: every value that depends on a jit argument, on a
+# loop carry / loop index of lax.scan / fori_loop / while_loop, or on an operand of lax.cond /
+# lax.switch is an abstract tracer.  Array operations on tracers give tracers; asking a tracer for
+# a concrete Python value (bool(), int(), float(), index into a Python container, boolean-mask
+# indexing, .item()/.tolist(), use as a shape) raises - here ConcretizationError - and so does
+# handing one to a plain numpy function (TracerArrayConversionError in JAX).  Both branches of
+# cond / every branch of switch are executed, as tracing does.  Numerical results are unchanged.
+import os as _os
+
+
+class ConcretizationError(TypeError):
+    """the concrete value of a run-time dependent (traced) array was requested"""
+
+
+class TracerArrayConversionError(ConcretizationError):
+    """a plain numpy function was applied to a run-time dependent (traced) array"""
+
+
+TAINT = _os.environ.get("SUMMER2_VERIF_TAINT", "") == "1"
+_jnp_depth = [0]
+_plain_JArr = JArr
+
+
+def _mk_tuple(proto, items):
+    """tuples keep their type (namedtuples are pytrees)"""
+    if hasattr(proto, "_fields"):
+        return type(proto)(*items)
+    return tuple(items)
+
+
+def _is_t(x):
+    return isinstance(x, _np.ndarray) and getattr(x, "_taint", False)
+
+
+def _tainted(x):
+    if isinstance(x, _np.ndarray):
+        return getattr(x, "_taint", False)
+    if isinstance(x, (tuple, list)):
+        return any(_tainted(e) for e in x)
+    if isinstance(x, dict):
+        return any(_tainted(e) for e in x.values())
+    if isinstance(x, slice):
+        return _tainted((x.start, x.stop, x.step))
+    return False
+
+
+def _strip(x):
+    """the same values as plain ndarrays / containers (no taint, no dispatch)"""
+    if isinstance(x, _np.ndarray):
+        return x.view(_np.ndarray) if type(x) is not _np.ndarray else x
+    if isinstance(x, tuple):
+        return _mk_tuple(x, [_strip(e) for e in x])
+    if isinstance(x, list):
+        return [_strip(e) for e in x]
+    if isinstance(x, dict):
+        return {k: _strip(v) for k, v in x.items()}
+    if isinstance(x, slice):
+        return slice(_strip(x.start), _strip(x.stop), _strip(x.step))
+    return x
+
+
+def _rewrap(res, t):
+    if isinstance(res, tuple):
+        return _mk_tuple(res, [_rewrap(r, t) for r in res])
+    if isinstance(res, list):
+        return [_rewrap(r, t) for r in res]
+    if isinstance(res, _np.ndarray):
+        out = res.view(JArr)
+        out._taint = bool(t)
+        return out
+    if isinstance(res, _np.generic) and t:
+        out = _np.asarray(res).view(JArr)
+        out._taint = True
+        return out
+    return res
+
+
+def taint(x):
+    """mark every numeric leaf of a pytree as run-time dependent"""
+    if isinstance(x, (bool, int, float, _np.generic, _np.ndarray)):
+        out = _np.array(_strip(x) if isinstance(x, _np.ndarray) else x).view(JArr)
+        if TAINT:
+            out._taint = True
+        return out
+    if isinstance(x, tuple):
+        return _mk_tuple(x, [taint(e) for e in x])
+    if isinstance(x, list):
+        return [taint(e) for e in x]
+    if isinstance(x, dict):
+        return {k: taint(v) for k, v in x.items()}
+    return x
+
+
+def untaint(x):
+    if isinstance(x, _np.ndarray):
+        return _np.array(_strip(x))
+    if isinstance(x, tuple):
+        return _mk_tuple(x, [untaint(e) for e in x])
+    if isinstance(x, list):
+        return [untaint(e) for e in x]
+    if isinstance(x, dict):
+        return {k: untaint(v) for k, v in x.items()}
+    return x
+
+
+def _peek(x):
+    return _strip(x) if isinstance(x, _np.ndarray) else x
+
+
+def _concretization(self, what):
+    raise ConcretizationError(
+        "%s of a run-time dependent array (shape %s) was requested: under jax tracing this is a "
+        "ConcretizationTypeError" % (what, self.shape))
+
+
+class TArr(_plain_JArr):
+    _taint = False
+
+    def __array_finalize__(self, obj):
+        self._taint = getattr(obj, "_taint", False)
+
+    def __array_ufunc__(self, ufunc, method, *inputs, out=None, **kwargs):
+        t = _tainted(inputs) or _tainted(out)
+        kw = dict(kwargs)
+        if out is not None:
+            kw["out"] = tuple(_strip(o) for o in out)
+        if "where" in kw:
+            t = t or _tainted(kw["where"])
+            kw["where"] = _strip(kw["where"])
+        res = getattr(ufunc, method)(*[_strip(i) for i in inputs], **kw)
+        return _rewrap(res, t)
+
+    def __array_function__(self, func, types, args, kwargs):
+        t = _tainted(args) or _tainted(kwargs)
+        if t and _jnp_depth[0] == 0:
+            raise TracerArrayConversionError(
+                "numpy.%s was applied to a run-time dependent array outside jax.numpy: under jax tracing this is a "
+                "TracerArrayConversionError" % getattr(func, "__name__", func))
+        res = func(*_strip(args), **_strip(kwargs))
+        return _rewrap(res, t)
+
+    def __getitem__(self, key):
+        kt = _tainted(key)
+        if kt:
+            ks = key if isinstance(key, tuple) else (key,)
+            for k in ks:
+                if isinstance(k, _np.ndarray) and k.dtype == bool and _is_t(k):
+                    _concretization(k, "boolean-mask indexing (the result shape depends on the values)")
+        key = _clamp_key(_strip(key), self.shape)
+        res = _np.ndarray.__getitem__(self, key)
+        return _rewrap(res, self._taint or kt) if (self._taint or kt or isinstance(res, _np.ndarray)) else res
+
+    def __bool__(self):
+        if self._taint:
+            _concretization(self, "the truth value")
+        return bool(_strip(self))
+
+    def __int__(self):
+        if self._taint:
+            _concretization(self, "int()")
+        return int(_strip(self))
+
+    def __float__(self):
+        if self._taint:
+            _concretization(self, "float()")
+        return float(_strip(self))
+
+    def __complex__(self):
+        if self._taint:
+            _concretization(self, "complex()")
+        return complex(_strip(self))
+
+    def __index__(self):
+        if self._taint:
+            _concretization(self, "use as a Python index / size")
+        return _strip(self).__index__()
+
+    def item(self, *a):
+        if self._taint:
+            _concretization(self, ".item()")
+        return _strip(self).item(*a)
+
+    def tolist(self):
+        if self._taint:
+            _concretization(self, ".tolist()")
+        return _strip(self).tolist()
+
+    def __format__(self, spec):
+        return format(_strip(self), spec)
+
+    def __repr__(self):
+        return ("Traced" if self._taint else "") + repr(_strip(self))
+
+    def __str__(self):
+        return ("Traced" if self._taint else "") + str(_strip(self))
+
+
+if TAINT:
+    JArr = TArr
+    Array = TArr
+    numpy.ndarray = TArr
+
+    # arguments that determine a shape must be concrete
+    _SHAPE_ALL = {"zeros", "ones", "empty", "eye", "identity", "arange", "tri"}
+    _SHAPE_ARG = {"full": (0, "shape"), "reshape": (1, "newshape"), "repeat": (1, "repeats"), "linspace": (2, "num"),
+                  "tile": (1, "reps"), "broadcast_to": (1, "shape")}
+
+    def _check_shapes(name, a, k):
+        if name in _SHAPE_ALL and (_tainted(a) or _tainted(k)):
+            raise ConcretizationError("jax.numpy.%s: a shape / range argument depends on run-time values" % name)
+        if name in _SHAPE_ARG:
+            pos, kw = _SHAPE_ARG[name]
+            v = a[pos] if len(a) > pos else k.get(kw)
+            if _tainted(v):
+                raise ConcretizationError("jax.numpy.%s: the %s argument depends on run-time values" % (name, kw))
+
+    def _wrapping(f):  # noqa: F811
+        @functools.wraps(f)
+        def g(*a, **k):
+            _check_shapes(getattr(f, "__name__", ""), a, k)
+            t = _tainted(a) or _tainted(k)
+            _jnp_depth[0] += 1
+            try:
+                res = f(*_strip(a), **_strip(k))
+            finally:
+                _jnp_depth[0] -= 1
+            return _rewrap(res, t)
+
+        return g
+
+    # re-wrap everything numpy falls back to, and the explicit constructors
+    for _n in [n for n in list(vars(numpy)) if callable(getattr(numpy, n)) and getattr(getattr(numpy, n), "__wrapped__", None)]:
+        delattr(numpy, _n)
+
+    def _t_array(obj, dtype=None, copy=True, **kw):
+        if isinstance(obj, range):
+            obj = list(obj)
+        a = _np.array(_strip(obj), dtype=dtype)
+        if a.dtype == object:
+            raise TypeError("jnp.array: ragged or non-numeric input %r" % (obj,))
+        return _rewrap(a, _tainted(obj))
+
+    _t_linalg = types.ModuleType("jax.numpy.linalg")
+    for _n in dir(_np.linalg):
+        if callable(getattr(_np.linalg, _n)) and not _n.startswith("_") and not isinstance(getattr(_np.linalg, _n), type):
+            setattr(_t_linalg, _n, _wrapping(getattr(_np.linalg, _n)))
+    numpy.linalg = _t_linalg
+
+    numpy.array = _t_array
+    numpy.asarray = lambda obj, dtype=None, **kw: _rewrap(_np.asarray(_strip(obj), dtype=dtype), _tainted(obj))
+    numpy.copy = lambda x: _rewrap(_np.array(_strip(x), copy=True), _tainted(x))
+    numpy.empty_like = lambda x, dtype=None: _rewrap(_np.zeros_like(_strip(x), dtype=dtype), False)
+
+    def _t_empty(shape, dtype=float):
+        _check_shapes("empty", (shape,), {})
+        return _rewrap(_np.zeros(_strip(shape), dtype=dtype), False)
+
+    numpy.empty = _t_empty
+
+    _plain_scatter = _AtIndexer._scatter
+
+    def _t_scatter(self, values, op):
+        t = _tainted(self.arr) or _tainted(values) or _tainted(self.key)
+        plain = _AtIndexer(_strip(self.arr).view(_plain_JArr), _strip(self.key))
+        res = _plain_scatter(plain, _strip(values), op)
+        return _rewrap(_np.asarray(res), t)
+
+    _AtIndexer._scatter = _t_scatter
+    _AtIndexer.set = lambda self, values, **kw: self._scatter(values, "set")
+    _AtIndexer.add = lambda self, values, **kw: self._scatter(values, "add")
+    _AtIndexer.mul = lambda self, values, **kw: self._scatter(values, "mul")
+    _AtIndexer.multiply = _AtIndexer.mul
+
+    def _arrify_t(x):
+        return taint(x)
+
+    def _branch_all(fs, chosen, *operands):
+        """execute every branch (tracing does); the result is the chosen branch's"""
+        ops = taint(operands)
+        out = None
+        for j, f in enumerate(fs):
+            if j == chosen:
+                out = f(*ops)
+            else:
+                try:
+                    with _np.errstate(all="ignore"):
+                        f(*ops)
+                except ConcretizationError:
+                    raise
+                except Exception:   # numerical trouble in a branch that is not taken is not our concern
+                    pass
+        return _rewrap_tree(out, True)
+
+    def _rewrap_tree(x, t):
+        if isinstance(x, (bool, int, float, _np.generic, _np.ndarray)):
+            return taint(x) if t else x
+        if isinstance(x, tuple):
+            return _mk_tuple(x, [_rewrap_tree(e, t) for e in x])
+        if isinstance(x, list):
+            return [_rewrap_tree(e, t) for e in x]
+        if isinstance(x, dict):
+            return {k: _rewrap_tree(v, t) for k, v in x.items()}
+        return x
+
+    def _t_while_loop(cond_fun, body_fun, init_val):
+        val = taint(init_val)
+        n = 0
+        while bool(_peek(_np.asarray(_strip(cond_fun(val))))):
+            val = taint(body_fun(val))
+            n += 1
+            if n > 10_000_000:
+                raise RuntimeError("jaxshim: while_loop exceeded 1e7 iterations")
+        return val
+
+    def _t_fori_loop(lower, upper, body_fun, init_val):
+        val = taint(init_val)
+        for i in range(int(_peek(_np.asarray(_strip(lower)))), int(_peek(_np.asarray(_strip(upper))))):
+            val = taint(body_fun(taint(i), val))
+        return val
+
+    def _t_scan(f, init, xs, length=None):
+        carry = taint(init)
+        ys = []
+        if xs is None:
+            it = [None] * length
+        else:
+            n = len(_tree_leaves(xs)[0]) if not isinstance(xs, _np.ndarray) else len(xs)
+            it = [_tree_map(lambda l: l[i], xs) for i in range(n)]
+        for x in it:
+            carry, y = f(carry, taint(x))
+            carry = taint(carry)
+            ys.append(y)
+        return carry, _rewrap_tree(_stack_tree([_strip(y) for y in ys]), True)
+
+    def _t_cond(pred, true_fun, false_fun, *operands):
+        p = bool(_peek(_np.asarray(_strip(pred))))
+        return _branch_all([true_fun, false_fun], 0 if p else 1, *operands)
+
+    def _t_switch(index, branches, *operands):
+        i = int(_peek(_np.asarray(_strip(index))))
+        i = max(0, min(i, len(branches) - 1))
+        return _branch_all(list(branches), i, *operands)
+
+    lax.while_loop = _t_while_loop
+    lax.fori_loop = _t_fori_loop
+    lax.scan = _t_scan
+    lax.cond = _t_cond
+    lax.switch = _t_switch
+
+    def jit(fun=None, static_argnums=None, static_argnames=None, **kw):  # noqa: F811
+        if fun is None:
+            return lambda f: jit(f, static_argnums, static_argnames)
+
+        @functools.wraps(fun)
+        def traced(*a, **k):
+            return fun(*taint(a), **taint(k))
+
+        return traced
+
+    def vmap(fun, in_axes=0, out_axes=0):  # noqa: F811
+        def mapped(*args):
+            axes = in_axes if isinstance(in_axes, (tuple, list)) else (in_axes,) * len(args)
+            n = None
+            for a, ax in zip(args, axes):
+                if ax is not None:
+                    n = len(a)
+                    break
+            outs = []
+            for i in range(n):
+                call_args = [a if ax is None else taint(a[i]) for a, ax in zip(args, axes)]
+                outs.append(fun(*call_args))
+            return _rewrap_tree(_stack_tree([_strip(o) for o in outs]), True)
+
+        return mapped
+
+    _plain_ravel = _ravel_pytree
+
+    def _t_ravel_pytree(tree):
+        t = _tainted(_tree_leaves(tree))
+        flat, unravel = _plain_ravel(_strip(tree))
+        return _rewrap(_np.asarray(flat), t), (lambda f: _rewrap_tree(unravel(_strip(f)), _tainted(f)))
+
+    flatten_util.ravel_pytree = _t_ravel_pytree
+    _src_numpy_util.promote_dtypes_inexact = lambda *args: [_rewrap(_np.asarray(_strip(a), dtype=float), _tainted(a)) for a in args]
+    _src_numpy_util._promote_dtypes_inexact = _src_numpy_util.promote_dtypes_inexact
+    _BCOO.__matmul__ = lambda self, other: _rewrap(self.dense @ _np.asarray(_strip(other)), _tainted(other))
+    _BCOO.__init__ = lambda self, dense: setattr(self, "dense", _np.asarray(_strip(dense)))
